@@ -174,10 +174,20 @@ fn check_seq(cfg: &Cfg, ops: &[Op], out: &mut JobOut) {
         let mut m = 0.0f64;
         let mut evals = 0u64;
         let mut skipped = 0u64;
+        let mut t = 0usize;
         for (i, op) in ops.iter().enumerate() {
+            if matches!(op, Op::Reset) {
+                // composite and hand-wired parts are reset together (fresh parts = reset parts, C04)
+                s.reset();
+                w = wire(cfg);
+                m = 0.0;
+                t = 0;
+                continue;
+            }
+            t += 1;
             m = m.max(op.maxmag());
             let got = s.apply(op);
-            match wired_step(&mut w, cfg, op, i + 1, m, &got) {
+            match wired_step(&mut w, cfg, op, t, m, &got) {
                 Some(Ok(())) => evals += 1,
                 None => skipped += 1,
                 Some(Err(why)) => return (evals, skipped, Some((i, got, why))),
@@ -225,6 +235,19 @@ pub fn run(ctx: &Ctx) -> CheckResult {
             jobs.push((Cfg::p2(Kind::SlowStoch, n, e), scal_ops.clone(), ds - 1));
             jobs.push((Cfg::p2(Kind::SlowStoch, n, e), bar_ops.clone(), db));
         }
+    }
+    // with reset() in the alphabet: composite and parts are reset together
+    for &n in &[1usize, 2, 3] {
+        for e in [1usize, 3] {
+            jobs.push((Cfg::p2(Kind::SlowStoch, n, e), with_reset(s_ops(&S_POS)), ds));
+        }
+        jobs.push((Cfg::pm(Kind::Bb, n, 2.0), with_reset(s_ops(&S_POS)), ds));
+        jobs.push((Cfg::pm(Kind::Kc, n, 2.0), with_reset(bar_ops.clone()), db - 1));
+        jobs.push((Cfg::pm(Kind::Ce, n, 3.0), with_reset(bar_ops.clone()), db - 1));
+        jobs.push((Cfg::p1(Kind::Cci, n), with_reset(bar_ops.clone()), db - 1));
+        jobs.push((Cfg::p1(Kind::Atr, n), with_reset(s_ops(&S_POS)), ds));
+        jobs.push((Cfg::p3(Kind::Macd, n, n + 2, 2), with_reset(s_ops(&S_POS)), ds));
+        jobs.push((Cfg::p3(Kind::Ppo, n + 2, n, 3), with_reset(s_ops(&S_POS)), ds));
     }
     // close-only composites driven with bars whose close is not mid-range (the grid has such bars)
     for &n in &[1usize, 2, 3, 5] {
@@ -281,6 +304,6 @@ pub fn run(ctx: &Ctx) -> CheckResult {
     res.absorb(merge_jobs(outs));
     res.extra.insert("composite_configurations".into(), json!(jobs.len()));
     res.rule = "case = (composite configuration, stream): the real composite and separately constructed public parts (SMA, SD, EMA, FastStochastic, TrueRange, ATR, Minimum, Maximum, MAD) are fed the same stream; at every step the composite's outputs must equal the documented combination of the parts within tau(t)*M (variances for the Bollinger half-width, times the condition number for CCI/PPO, gated at 1e6); non-trivial = stream longer than the window".into();
-    res.bounds = format!("BB/KC/CE periods {singles:?} x multipliers {{2,0,0.5,3}}, ATR, CCI, SLOW_STOCH (n x {{1,3}}), MACD/PPO over 6 period triples; all 9^{ds} mixed-sign/rough scalar streams and all 10^{db} valid-bar streams (BB, MACD and PPO are driven with bars as well as scalars) (side multipliers 1-2 levels shallower); the positive scalar / bar alphabets in a 2^-60 price unit for periods {{1,2,3,5}}");
+    res.bounds = format!("BB/KC/CE periods {singles:?} x multipliers {{2,0,0.5,3}}, ATR, CCI, SLOW_STOCH (n x {{1,3}}), MACD/PPO over 6 period triples; all 9^{ds} mixed-sign/rough scalar streams and all 10^{db} valid-bar streams (BB, MACD and PPO are driven with bars as well as scalars; streams with reset(), composite and parts reset together) (side multipliers 1-2 levels shallower); the positive scalar / bar alphabets in a 2^-60 price unit for periods {{1,2,3,5}}");
     res
 }
